@@ -4,11 +4,5 @@ NOTES = ("Technique family: machine-checked proof in Coq 8.16.1. Every check = r
 PROOF_NOTE = ("Trusted: Coq kernel + vm_compute; translator tools/pyx2v.py and its numpy->Np whitelist; Np primitives as numpy semantics; "
               "correspondence harness. Axioms per theorem from Print Assumptions (evidence coverage.axioms). Floating point, LAPACK, "
               "numpy.random are oracles (DESIGN §6).")
-CLAIMED = {
- "C17": {"category": "proof", "pyx2v": True,
-         "text": "Theorems over the helpers as regenerated from pyttb_utils.py on every run (sub2ind/ind2sub bijection, first-index-fastest, "
-                 "tt_dimscheck selection/alignment/rejections), for all shapes, index sets and mode requests; row-set helpers and Khatri-Rao "
-                 "tied by correspondence against the generated model.",
-         "note": PROOF_NOTE, "technique": "Coq theorems over translator-generated Gallina + differential correspondence"},
-}
+CLAIMED = {}
 NOT_APPLICABLE = {}
